@@ -51,14 +51,14 @@ theorem gq_add_zero : (0 : GQ) + 0 = 0 := by refine GQ.ext ?_ ?_ <;> simp
 /-- the `[1,0]` entry of the matrix is real in the exact regime (the code multiplies a column by it
 without conjugating) -/
 theorem assemble_g10_real {a b : GQ} {c s : Rat} {ph : GQ} (h : CSP a b c s ph) (right real : Bool)
-    (hreal : real = true → a.im = 0 ∧ b.im = 0) : (assemble right real c s ph).g10.im = 0 := by
+    (hreal : real = true → ph.im = 0) : (assemble right real c s ph).g10.im = 0 := by
   cases right <;> cases real <;> simp only [assemble, Bool.not_true, Bool.not_false, if_true, if_false,
     Bool.false_eq_true]
   · simp
-  · obtain ⟨hi, _⟩ := ph_real_sq h (hreal rfl).1 (hreal rfl).2
+  · obtain ⟨hi, _⟩ := ph_real_sq h (hreal rfl)
     simp [hi]
   · simp
-  · obtain ⟨hi, _⟩ := ph_real_sq h (hreal rfl).1 (hreal rfl).2
+  · obtain ⟨hi, _⟩ := ph_real_sq h (hreal rfl)
     simp [hi]
 
 /-- if `G₁₀` is real and `G₁₀ ā + G₁₁ b̄ = 0` then `G₁₀ a + conj(G₁₁) b = 0` -/
@@ -75,23 +75,16 @@ theorem column_step_zeroes_target_aux (tol : Rat) (htol : 0 < tol) (M : Mat) (i 
     (hi : i < M.length) (hj : 1 ≤ j) (hrow : j < (M.getD i []).length)
     (hexa : small tol (M.get i (j - 1)).conj = true → (M.get i (j - 1)).conj = 0)
     (hexb : small tol (M.get i j).conj = true → (M.get i j).conj = 0)
-    (hreal : realish tol (M.get i (j - 1)).conj (M.get i j).conj = true →
-      (M.get i (j - 1)).conj.im = 0 ∧ (M.get i j).conj.im = 0)
+    (hreal : RealExact tol (M.get i (j - 1)).conj (M.get i j).conj)
     (hG : givensElems tol (M.get i (j - 1)).conj (M.get i j).conj true = .ok G) :
     (rotateCols M G (j - 1) j).get i j = 0 := by
   rw [rotateCols_get M G (j - 1) j i j hi (by omega) hrow (by omega)]
   simp only [if_true]
-  unfold givensElems at hG
-  cases hC : cosSinPhase tol (M.get i (j - 1)).conj (M.get i j).conj with
-  | error e => simp [hC, bind, Except.bind] at hG
-  | ok t =>
-    obtain ⟨c, s, ph⟩ := t
-    simp only [hC, bind, Except.bind] at hG
-    injection hG with hG; subst hG
-    have hcsp := cosSinPhase_spec htol hexa hexb hC
-    have hz := assemble_zeroes hcsp true _ hreal
-    simp only [G2.Zeroes, if_true] at hz
-    exact conj_zero_relation _ _ _ _ (assemble_g10_real hcsp true _ hreal) hz
+  obtain ⟨c, s, ph, hC, hr, rfl⟩ := givensElems_inv hreal hG
+  have hcsp := cosSinPhase_spec htol hexa hexb hC
+  have hz := assemble_zeroes hcsp true _ hr
+  simp only [G2.Zeroes, if_true] at hz
+  exact conj_zero_relation _ _ _ _ (assemble_g10_real hcsp true _ hr) hz
 
 theorem column_step_keeps_aux (M : Mat) (G : G2) (i' j x : Nat) (hi : i' < M.length) (hj : 1 ≤ j)
     (hrow : j < (M.getD i' []).length) :
